@@ -112,6 +112,31 @@ func ruleWrappers(w *World, c *Check, rule string, methods []string, ref map[str
 					}
 				}
 			}
+			if !found {
+				// forwarding through another module function that itself makes the expected call: its
+				// body is read with its parameters as this method's arguments
+				for _, b := range f.Blocks {
+					for _, in := range b.Instrs {
+						call, isCall := in.(*ssa.Call)
+						if !isCall {
+							continue
+						}
+						g := call.Call.StaticCallee()
+						if g == nil || len(g.Blocks) == 0 || g.Pkg == nil || !inModule(g.Pkg.Pkg.Path()) || g == f {
+							continue
+						}
+						sub := NewFuncAnCtx(w, g, fa.CallArgs(call))
+						sub.R.inlineDepth = 1
+						for _, gb := range g.Blocks {
+							for _, gin := range gb.Instrs {
+								if gci, ok := gin.(ssa.CallInstruction); ok && fa.M(want, sub.RenderCall(gci)) {
+									found = true
+								}
+							}
+						}
+					}
+				}
+			}
 			c.Decide(found, rule, fk, "forwards", w.Pos(f.Pos()), "the method forwards its parameters in the callee's roles: "+strings.ReplaceAll(want, `\`, ""), fmt.Sprintf("calls made: %v", calls))
 		}
 	}
@@ -216,8 +241,21 @@ func ruleWholeCompare(w *World, c *Check, rule, fk, aPat, bPat string) {
 		n++
 		s := fa.R.R(rs[0])
 		where := w.Pos(InstrPos(x.Ret))
-		good := fa.M(eqRe+`\(`+aPat+`, `+bPat+`\)`, s) || fa.M(eqRe+`\(`+bPat+`, `+aPat+`\)`, s) ||
-			fa.M(`\(1 == crypto/subtle\.ConstantTimeCompare\((`+aPat+`, `+bPat+`|`+bPat+`, `+aPat+`)\)\)`, s)
+		// the value may come back through a helper the body was moved into: every way it can be
+		// true (every leaf that is not the constant false) is the whole-slice comparison
+		good := true
+		nLeaf := 0
+		for _, leaf := range fa.LeafTerms(rs[0]) {
+			if leaf == "false" {
+				continue
+			}
+			nLeaf++
+			if !(fa.M(eqRe+`\(`+aPat+`, `+bPat+`\)`, leaf) || fa.M(eqRe+`\(`+bPat+`, `+aPat+`\)`, leaf) ||
+				fa.M(`\(1 == crypto/subtle\.ConstantTimeCompare\((`+aPat+`, `+bPat+`|`+bPat+`, `+aPat+`)\)\)`, leaf)) {
+				good = false
+			}
+		}
+		good = good && nLeaf > 0
 		c.Decide(good, rule, fk, "result", where, "the result is hmac.Equal/bytes.Equal/subtle over the whole computed value and the whole presented value (lengths included)", "returns "+trunc(s, 300))
 		if good && !strings.Contains(s, "crypto/hmac.Equal") && !strings.Contains(s, "subtle") {
 			c.Note(rule, fk, "timing", where, "comparison is not constant-time (the property is about what is accepted, not timing)")
@@ -330,26 +368,16 @@ func runC07(w *World, c *Check) {
 			c.Missing("C07.verify", fk)
 			continue
 		}
-		computed := `crypto\.\(` + tn + `\)\.GetChecksumHash\(recv, protocolKey, data, usage\)`
+		// (an interface call on the receiver itself dispatches to the receiver's own method)
+		computed := `(?:crypto\.\(` + tn + `\)\.GetChecksumHash\(recv, protocolKey, data, usage\)|crypto/etype\.EType\.GetChecksumHash\(recv, protocolKey, data, usage\))`
 		if famOfEtype[tn] == "rc4" {
 			computed = `(crypto\.\(RC4HMAC\)\.GetChecksumHash\(recv, protocolKey, data, usage\)|crypto/rfc4757\.Checksum\(protocolKey, usage, data\))`
 		}
 		ruleWholeCompare(w, c, "C07.verify", fk, computed+`#0`, `chksum`)
-		// compute error ⇒ false
-		fa := NewFuncAn(w, f)
-		pass := fa.MatchGuard(EqPass("nil", computed+`#1`))
-		var trueExits []Exit
-		for _, x := range fa.Exits() {
-			if v, known := fa.knownBool(RetResults(x.Ret)[0], x.In); !known || v {
-				trueExits = append(trueExits, x)
-			}
-		}
-		if len(pass) == 0 {
-			c.Fail("C07.verify", fk, "error-false", w.Pos(f.Pos()), "a failing checksum computation yields false", "error of the computation is not tested")
-		} else {
-			p := fa.PathAvoiding(pass, trueExits)
-			c.Decide(p == nil, "C07.verify", fk, "error-false", w.Pos(f.Pos()), "a failing checksum computation yields false", "may return true after a compute error: "+fa.DescribePath(p))
-		}
+		// compute error ⇒ false (in the method, or in the helper its body was moved into)
+		checkGuards(w, c, "C07.verify", fk, trueExitClass(0), []GuardSpec{
+			{Name: "error-false", Desc: "a failing checksum computation yields false", Main: []GuardPat{EqPass("nil", computed+`#1`)}},
+		})
 	}
 	ruleWholeCompare(w, c, "C07.verify", "crypto/common.VerifyChecksum", `crypto/common\.GetChecksumHash\(msg, key, usage, etype\)#0`, `chksum`)
 }
